@@ -2250,7 +2250,23 @@ XPathProcessorImpl::LocationPath()
         m_expression->updateOpCodeLength(newOpPos);
     }
 
-    if(m_token.empty() == false)
+    // '/' on its own is a location path, which an operator or a closing
+    // bracket can follow ("/ = *", "/ | a", "count(/)").  A name or '*' after
+    // it is a step, never an operator.
+    const bool  fRootOnly =
+        fHasSteps == true &&
+        (tokenIs(XalanUnicode::charVerticalLine) == true ||
+         tokenIs(XalanUnicode::charEqualsSign) == true ||
+         tokenIs(XalanUnicode::charExclamationMark) == true ||
+         tokenIs(XalanUnicode::charLessThanSign) == true ||
+         tokenIs(XalanUnicode::charGreaterThanSign) == true ||
+         tokenIs(XalanUnicode::charPlusSign) == true ||
+         tokenIs(XalanUnicode::charHyphenMinus) == true ||
+         tokenIs(XalanUnicode::charRightParenthesis) == true ||
+         tokenIs(XalanUnicode::charRightSquareBracket) == true ||
+         tokenIs(XalanUnicode::charComma) == true);
+
+    if(m_token.empty() == false && fRootOnly == false)
     {
         const int   theLengthBefore = m_expression->opCodeMapLength();
 
